@@ -123,6 +123,7 @@ type sched struct {
 	panics       []PanicInfo
 	closed       map[uintptr]bool
 	chans        map[uintptr]*objState
+	syncCh       map[uintptr]bool // unbuffered channels made by instrumented code (MakeSync)
 	atoms        map[uintptr]*objState
 	maps         map[uintptr]*mapState
 	objids       map[uintptr]int
@@ -194,7 +195,7 @@ func Run(cfg Config, body func()) *Result {
 	if cfg.LibPrefix == "" {
 		cfg.LibPrefix = "github.com/hslam/rpc."
 	}
-	s := &sched{cfg: cfg, finish: make(chan struct{}), closed: map[uintptr]bool{}, chans: map[uintptr]*objState{}, atoms: map[uintptr]*objState{}, objids: map[uintptr]int{}}
+	s := &sched{cfg: cfg, finish: make(chan struct{}), closed: map[uintptr]bool{}, chans: map[uintptr]*objState{}, syncCh: map[uintptr]bool{}, atoms: map[uintptr]*objState{}, objids: map[uintptr]int{}}
 	epoch++
 	S = s
 	for _, f := range resets {
